@@ -221,6 +221,111 @@ class ModelDriver:
 
 
 # ----------------------------------------------------------------------------------------
+# line coverage of the anchored source files of the property (how much of the modelled code the generated cases reach)
+
+_COV_HITS = set()
+_COV_FILES = set()
+_COV_ON = False
+
+
+def anchored_files(pid):
+    """repo-relative paths of the files the property is anchored in (properties.jsonl, anchors.files)"""
+    try:
+        for l in (VERIF / "properties.jsonl").read_text().splitlines():
+            if l.strip():
+                d = json.loads(l)
+                if d.get("id") == pid:
+                    return [f for f in d.get("anchors", {}).get("files", []) if f.endswith(".py")]
+    except Exception:
+        pass
+    return []
+
+
+def _cov_start(pid):
+    """sys.monitoring LINE events (CPython >= 3.12), every location reported once: negligible overhead"""
+    global _COV_ON
+    if _COV_ON or os.environ.get("VERIF_NO_COVERAGE") or not hasattr(sys, "monitoring"):
+        return
+    files = {str((REPO / f).resolve()) for f in anchored_files(pid)}
+    if not files:
+        return
+    mon = sys.monitoring
+    try:
+        mon.use_tool_id(mon.COVERAGE_ID, "verif")
+    except Exception:
+        return
+    _COV_FILES.update(files)
+
+    def on_line(code, line):
+        if code.co_filename in _COV_FILES:
+            _COV_HITS.add((code.co_filename, line))
+        return mon.DISABLE
+
+    mon.register_callback(mon.COVERAGE_ID, mon.events.LINE, on_line)
+    mon.set_events(mon.COVERAGE_ID, mon.events.LINE)
+    _COV_ON = True
+
+
+def coverage_report(pid, hits):
+    """per anchored file: executable lines hit / total, and per function the lines never reached"""
+    import ast
+    rep = {}
+    for rel in anchored_files(pid):
+        path = (REPO / rel).resolve()
+        try:
+            src = path.read_text()
+            tree = ast.parse(src)
+            code = compile(src, str(path), "exec")
+        except Exception as e:
+            rep[rel] = {"error": repr(e)}
+            continue
+        lines = set()
+
+        def walk(co):
+            for _, _, ln in co.co_lines():
+                if ln:
+                    lines.add(ln)
+            for c in co.co_consts:
+                if hasattr(c, "co_lines"):
+                    walk(c)
+        walk(code)
+        funcs = []   # (qualname, first, last)
+
+        def visit(node, prefix):
+            for ch in ast.iter_child_nodes(node):
+                if isinstance(ch, (ast.FunctionDef, ast.AsyncFunctionDef, ast.ClassDef)):
+                    q = prefix + ch.name
+                    if not isinstance(ch, ast.ClassDef):
+                        funcs.append((q, ch.lineno, ch.end_lineno))
+                    visit(ch, q + ".")
+        visit(tree, "")
+        hit = {ln for (f, ln) in hits if f == str(path)}
+        # docstring-only / def lines are executed at import time (before monitoring started): count body lines only
+        body = set()
+        partial, not_entered, full = {}, [], 0
+        for q, a, b in funcs:
+            fl = {ln for ln in lines if a < ln <= b}
+            inner = set()
+            for q2, a2, b2 in funcs:
+                if q2 != q and a < a2 and b2 <= b:
+                    inner |= {ln for ln in lines if a2 <= ln <= b2}
+            fl -= inner
+            if not fl:
+                continue
+            body |= fl
+            h = fl & hit
+            if not h:
+                not_entered.append(q)
+            elif h == fl:
+                full += 1
+            else:
+                partial[q] = sorted(fl - h)[:25]
+        rep[rel] = {"function_body_lines": len(body), "hit": len(body & hit), "functions_fully_covered": full,
+                    "functions_partially_covered": partial, "functions_not_entered": not_entered[:60]}
+    return rep
+
+
+# ----------------------------------------------------------------------------------------
 # check context
 
 class Ctx:
@@ -252,6 +357,7 @@ def _eval_chunk(args):
     """Worker: run impl + oracle on a chunk of cases. Returns list of (idx, impl_result, oracle_msg, nontrivial, labels)."""
     modname, chunk, case_timeout = args
     mod = importlib.import_module(modname)
+    _cov_start(getattr(mod, "PID", ""))
     out = []
     confirmed_timeouts = 0
     for idx, case in chunk:
@@ -291,7 +397,7 @@ def _eval_chunk(args):
             except Exception:
                 labels = ["classify-error"]
         out.append((idx, res, orc, nt, labels))
-    return out
+    return out, set(_COV_HITS)
 
 
 def _limit_worker_memory():
@@ -307,16 +413,23 @@ def _limit_worker_memory():
         pass
 
 
+COVERAGE_HITS = set()
+
+
 def evaluate(modname, cases, jobs, case_timeout):
     """Run impl+oracle over all cases (in parallel for big runs)."""
     indexed = list(enumerate(cases))
     if jobs <= 1 or len(indexed) < 2000:
-        return _eval_chunk((modname, indexed, case_timeout))
+        out, hits = _eval_chunk((modname, indexed, case_timeout))
+        COVERAGE_HITS.update(hits)
+        return out
     n = jobs * 4
     chunks = [indexed[i::n] for i in range(n)]
     with multiprocessing.get_context("fork").Pool(jobs, initializer=_limit_worker_memory) as pool:
         parts = pool.map(_eval_chunk, [(modname, c, case_timeout) for c in chunks if c])
-    out = [r for part in parts for r in part]
+    out = [r for part, hits in parts for r in part]
+    for part, hits in parts:
+        COVERAGE_HITS.update(hits)
     out.sort(key=lambda r: r[0])
     return out
 
@@ -583,6 +696,7 @@ def run_check(modname, argv=None):
             "input_distribution": dict(hist.most_common(60)),
             "proof_problems": proof_problems,
             "leanchecker": leanchecker,
+            "impl_line_coverage": coverage_report(pid, COVERAGE_HITS),
             "notes": notes + list(getattr(ctx, "notes", [])),
         },
         "assumptions": list(getattr(mod, "ASSUMPTIONS", [])),
